@@ -159,6 +159,55 @@ def r2(db, rep):
     rep.floor("R2", "execute call sites", n, 3)
 
 
+def r3(db, rep):
+    rep.rule("R3", "a module is fetched once: in SourceTextModule::inner_load the host loader job is created only when the "
+                   "module was newly added to state.visited and only on the miss edge of the loaded_modules lookup")
+    fs = [f for f in db.fns.values() if cname(f.id) == "SourceTextModule::inner_load" and "{closure" not in f.id]
+    if not rep.anchor("R3", "SourceTextModule::inner_load", fs):
+        return
+    f = fs[0]
+    # the loader runs in a job: the job that awaits finish_loading_imported_module is enqueued here
+    loads = [b for b, t in f.calls() if cn(t) in ("Context::enqueue_job", "NativeAsyncJob::with_realm", "NativeAsyncJob::new")]
+    inner = [g for g in db.all_nested(f)[1:] if any("finish_loading_imported_module" in (callee(t) or "") for _, t in g.calls())]
+    if not rep.anchor("R3", "job closure calling finish_loading_imported_module (HostLoadImportedModule)", inner):
+        return
+    if not rep.anchor("R3", "enqueue of the loader job in inner_load", loads):
+        return
+    from facts import bool_switch, bool_origin, taint
+    for i, lb in enumerate(loads):
+        visited_ok = False
+        miss_ok = False
+        for sb in f.dominators().get(lb, ()):
+            bs = bool_switch(f, sb)
+            if bs:
+                l, fb, tb = bs
+                pol, root = bool_origin(f, l)
+                if root[0] == "call" and cn(root[2]).split("::")[-1] == "insert":
+                    good = tb if pol else fb
+                    if lb in f.reach_from([good], avoid={sb}) and lb not in f.reach_from([fb if pol else tb], avoid={sb}):
+                        visited_ok = True
+            t = f.blocks[sb]["t"]
+            if t["t"] == "switch":
+                l = op_local(t["o"])
+                d = f.single_def(l) if l is not None else None
+                if d and d[1] != "t" and d[2].get("k") == "discr" and len(d[2]["p"]) == 1:
+                    src = d[2]["p"][0]
+                    if "Option<boa_engine::module::Module>" in f.locals[src].replace("core::option::", ""):
+                        rs = roots(f, src)
+                        if any(r[0] == "call" and cn(r[2]).split("::")[-1] in ("cloned", "get") for r in rs):
+                            none_t = t["tgts"][t["vals"].index("0")] if "0" in t["vals"] else t["tgts"][-1]
+                            some_t = [x for x in t["tgts"] if x != none_t]
+                            if lb in f.reach_from([none_t], avoid={sb}) and lb not in f.reach_from(some_t, avoid={sb}):
+                                miss_ok = True
+        rep.ob("R3", f"inner_load:loader-call:{i}:only-for-new-module", visited_ok,
+               "inner_load can ask the host loader for a module's dependencies although the module was already visited — "
+               "dependencies would be fetched (and instantiated) more than once", loc=f.loc(lb))
+        rep.ob("R3", f"inner_load:loader-call:{i}:only-on-cache-miss", miss_ok,
+               "inner_load asks the host loader for a specifier that is already in [[LoadedModules]] — the module would be "
+               "fetched again and could be instantiated twice", loc=f.loc(lb))
+
+
 def run(db, rep, tier):
     r1(db, rep)
     r2(db, rep)
+    r3(db, rep)
